@@ -15,3 +15,9 @@ package sliceu
 //@     invariant forall(0, low, func(j int) bool { return cmp(x[j], target) < 0 })
 //@     invariant forall(high, len(x), func(j int) bool { return cmp(x[j], target) > 0 })
 //@     decreases high - low
+
+//@ func KeyMap
+//@   property C02
+//@   ensures forall(func(k T) bool { return has(result, k) == exists(0, len(sl), func(j int) bool { return sl[j] == k }) })
+//@   loop 0:
+//@     invariant forall(func(k T) bool { return has(out, k) == exists(0, idx_, func(j int) bool { return sl[j] == k }) })
